@@ -160,6 +160,43 @@ theorem bdat_receiver_fidelity (e : Env) (he : GoodEnv e) (st : Rx) (cmds : List
   show handoffs (runCmds e st cmds).log ++ _ = _
   rw [r3]
 
+/-! ### several transactions on one connection -/
+
+/-- **A new transaction starts clean.** Take *any* state of the receiver behind EHLO — in the middle of a
+BDAT transfer with a CR held back (`lastcr`), with an error recorded (`bdaterr`), with any `msgsize`,
+any bytes in the queue buffer, the queue pipe open or closed. After RSET (which ends whatever transfer
+was open), MAIL FROM: and RCPT TO:, the next BDAT transfer hands off `crlfToLf` of *its own* chunks
+with *its own* octet count, and nothing else is handed off: `lastcr`, `bdaterr`, `msgsize` and
+`comstate = 0x0800` do not carry over. -/
+theorem bdat_new_transaction_clean (e : Env) (he : GoodEnv e) (st : Rx) (hst : Gen.rsetHeloState ≤ st.comstate)
+    (cmds : List Cmd) (fin : Cmd)
+    (hok : ∀ c ∈ cmds, c.ok ∧ c.last = false) (hfin : fin.ok ∧ fin.last = true)
+    (hsize : (dataOf (cmds ++ [fin])).length ≤ e.maxbytes) :
+    handoffs (runCmds e (rcptRow (mailRow (smtpRset st))) (cmds ++ [fin])).log =
+      handoffs st.log ++ [((dataOf (cmds ++ [fin])).length, crlfToLf (dataOf (cmds ++ [fin])))] := by
+  obtain ⟨_, h2, h3⟩ := smtpRset_spec st
+  obtain ⟨m1, m2, m3⟩ := mail_rcpt_spec (smtpRset st) (h3 hst).1
+  rw [bdat_receiver_fidelity e he _ cmds fin m1 m2 hok hfin hsize, m3, h2]
+
+/-- The same behind a transfer that was completed (the command loop then moves to the state behind
+EHLO) or in any other state with that `comstate`: again whatever the other fields hold. -/
+theorem bdat_next_transaction_clean (e : Env) (he : GoodEnv e) (s : Rx) (hc : s.comstate = Gen.rsetHeloState <<< 1)
+    (cmds : List Cmd) (fin : Cmd)
+    (hok : ∀ c ∈ cmds, c.ok ∧ c.last = false) (hfin : fin.ok ∧ fin.last = true)
+    (hsize : (dataOf (cmds ++ [fin])).length ≤ e.maxbytes) :
+    handoffs (runCmds e (rcptRow (mailRow s)) (cmds ++ [fin])).log =
+      handoffs s.log ++ [((dataOf (cmds ++ [fin])).length, crlfToLf (dataOf (cmds ++ [fin])))] := by
+  obtain ⟨m1, m2, m3⟩ := mail_rcpt_spec s hc
+  rw [bdat_receiver_fidelity e he _ cmds fin m1 m2 hok hfin hsize, m3]
+
+/-- RSET ends an open transfer in every state and hands nothing off. -/
+theorem bdat_rset_ends_transfer (st : Rx) :
+    (smtpRset st).comstate ≠ Gen.bdatState ∧ handoffs (smtpRset st).log = handoffs st.log :=
+  ⟨(smtpRset_spec st).1, (smtpRset_spec st).2.1⟩
+
+/-- non-vacuity: a state in the middle of a transfer, CR pending, error recorded -/
+example : Gen.rsetHeloState ≤ ({ comstate := Gen.bdatState, lastcr := true, bdaterr := 5, msgsize := 77, qfd := true, qbuf := [97] } : Rx).comstate := by decide
+
 /-! ### a failure in one chunk fails the whole transaction -/
 
 /-- **Stickiness, part 1.** Whenever `smtp_bdat` gets past the argument check and returns an error
